@@ -274,6 +274,43 @@ fn check_fault(ctx: &Ctx, b: &Base, pos: &Pos, kind: &str, ins: &[Node]) {
     }
 }
 
+/// A second definition of an existing label appended behind a segment boundary (`.org`, `.dseg`,
+/// `.eseg`, `.eseg` + `.cseg`): still a duplicate, whichever segment the first definition lives in.
+fn check_duplicate_across_segments(ctx: &Ctx, b: &Base, rng: &mut Rng) {
+    if b.labels.is_empty() {
+        return;
+    }
+    let l = rng.pick(&b.labels).clone();
+    let dup = crate::gen::spell::case(&l, rng);
+    let tails: Vec<(&'static str, Vec<Node>)> = vec![
+        ("behind-org", vec![Node::Org(E::Lit(0x1000 + rng.range(0, 64), 1)), Node::Label(dup.clone()), Node::instr("nop", vec![])]),
+        ("in-dseg", vec![Node::Seg(Seg::Data), Node::Reserve { label: Some(dup.clone()), n: E::Lit(1, 0) }]),
+        ("in-eseg", vec![Node::Seg(Seg::Eeprom), Node::Data { label: Some(dup.clone()), width: 1, ops: vec![DataOp::E(E::Lit(1, 0))] }]),
+        ("after-returning-to-cseg", vec![Node::Seg(Seg::Eeprom), Node::Data { label: None, width: 1, ops: vec![DataOp::E(E::Lit(1, 0))] }, Node::Seg(Seg::Code), Node::Label(dup.clone())]),
+    ];
+    for (how, tail) in tails {
+        let mut nodes = b.nodes.clone();
+        let at = tail.iter().position(|n| line_of_label(std::slice::from_ref(n), &dup).is_some()).unwrap();
+        let p = 1 + layout::count_lines(&nodes) + layout::count_lines(&tail[..at]);
+        nodes.extend(tail);
+        let src = ir::print_canonical(&nodes);
+        let out = fw::build_str(&src);
+        ctx.eval(1);
+        ctx.count("fault:duplicate-label-across-segments", 1);
+        let replay = json!({"source": src, "fault_kind": "duplicate-label", "fault_line": p, "context": how, "faulty_text": src.lines().nth(p - 1), "observed": out.brief()});
+        match &out {
+            Outcome::Ok(_) => ctx.violation(format!("diag/duplicate-label/{}/build-succeeded", how), format!("line {} `{}` defines `{}` a second time but the build succeeded", p, src.lines().nth(p - 1).unwrap_or("").trim(), l), replay),
+            Outcome::Panic(pn) => ctx.violation(format!("diag/duplicate-label/{}/panic", how), fw::clip(pn, 120), replay),
+            Outcome::Err(e) => {
+                let first = line_of_label(&nodes, &l);
+                if !(has_line_token(e, p) || first.map(|o| has_line_token(e, o)).unwrap_or(false)) {
+                    ctx.violation(format!("diag/duplicate-label/{}/line-not-named", how), format!("second definition in line {} (first in {:?}) but the error names neither: {}", p, first, fw::clip(e, 160)), replay);
+                }
+            }
+        }
+    }
+}
+
 fn line_of_label_second(nodes: &[Node], name: &str) -> Option<usize> {
     let mut seen = false;
     for (i, n) in nodes.iter().enumerate() {
@@ -325,7 +362,8 @@ fn check_messages(ctx: &Ctx, b: &Base, rng: &mut Rng) {
     let reference = layout::assemble(&layout::single(nodes.clone()));
     ctx.eval(1);
     ctx.count("message_programs", 1);
-    let replay = json!({"source": src, "base": base_src, "kind": "messages", "observed": out.brief()});
+    let expected: Vec<Value> = reference.as_ref().map(|r| r.messages.iter().map(|m| json!({"line": m.line, "text": m.text, "warning": matches!(m.kind, MsgKind::Warning)})).collect()).unwrap_or_default();
+    let replay = json!({"source": src, "base": base_src, "kind": "messages", "expected": expected, "observed": out.brief()});
     match (&reference, &out, &base_out) {
         (Ok(r), Outcome::Ok(a), Outcome::Ok(bo)) => {
             if a.code != bo.code || a.eeprom != bo.eeprom || a.ram_filling != bo.ram_filling {
@@ -379,13 +417,14 @@ pub fn run(ctx: &Ctx) -> i32 {
             }
         }
         ctx.count("positions", poss.len() as u64);
+        check_duplicate_across_segments(ctx, &b, &mut rng);
         for _ in 0..3 {
             check_messages(ctx, &b, &mut rng);
         }
     });
     fw::finish(
         ctx,
-        "valid base programs of 5-40 lines (labels, instructions, data, .equ, .set, conditional blocks, three segments) x every insertion position on the assembling path (top level and inside the taken branch) x 23 kinds of single-line fault (syntax, unknown mnemonic/macro, register<->expression confusion, out-of-range immediate/register class/port/bit/displacement/relative target, operand count, undefined symbol in instruction/alias/data/.set/.if - also in an operand that cannot change the value (0 && x, 1 || x, 0 * x) -, duplicate label, out-of-range data, string in word directive, .error, division by zero): build must fail with an error containing the token `line: p`; plus 3 message placements per base (.message/.warning at top level and inside taken/untaken branches): images unchanged, message list equals the expected (text, line, order, kind distinguishable); distinct_nontrivial = distinct base programs; counters fault:* = faulty builds per kind",
+        "valid base programs of 5-40 lines (labels, instructions, data, .equ, .set, conditional blocks, three segments) x every insertion position on the assembling path (top level and inside the taken branch) x 23 kinds of single-line fault (syntax, unknown mnemonic/macro, register<->expression confusion, out-of-range immediate/register class/port/bit/displacement/relative target, operand count, undefined symbol in instruction/alias/data/.set/.if - also in an operand that cannot change the value (0 && x, 1 || x, 0 * x) -, duplicate label, out-of-range data, string in word directive, .error, division by zero): build must fail with an error containing the token `line: p`; per base 4 second definitions of an existing label appended behind a segment boundary (.org, .dseg, .eseg, .eseg then .cseg); plus 3 message placements per base (.message/.warning at top level and inside taken/untaken branches): images unchanged, message list equals the expected (text, line, order, kind distinguishable); distinct_nontrivial = distinct base programs; counters fault:* = faulty builds per kind",
         &["every program starts with a comment line so p >= 2 (PEG errors embed `line: 1`); for a duplicate label either defining line is accepted", "macros are not used (body vs call attribution is not specified)"],
     )
 }
@@ -404,6 +443,16 @@ pub fn replay(ctx: &Ctx, case: &Value) -> i32 {
         };
         if !same {
             ctx.violation("diag/replay", "message program still differs from its base", case.clone());
+        } else if let (Outcome::Ok(a), Some(exp)) = (&out, case["expected"].as_array()) {
+            let ok = a.messages.len() == exp.len()
+                && a.messages.iter().zip(exp).all(|(m, e)| {
+                    let lower = m.to_lowercase();
+                    let kind_ok = if e["warning"].as_bool() == Some(true) { lower.contains("warn") } else { !lower.starts_with("warn") };
+                    m.contains(e["text"].as_str().unwrap_or("\u{0}")) && has_line_token(m, e["line"].as_u64().unwrap_or(0) as usize) && kind_ok
+                });
+            if !ok {
+                ctx.violation("diag/replay", format!("messages {:?} still do not match the expected list", a.messages), case.clone());
+            }
         }
     } else {
         let p = case["fault_line"].as_u64().unwrap_or(0) as usize;
